@@ -119,6 +119,11 @@ def model (line : String) : String :=
 
 def allDistinct (l : List Nat) : Bool := l.eraseDups.length == l.length
 
+/-- first repeated element of a sorted list -/
+def dupKey : List Nat → Option Nat
+  | a :: b :: rest => if a == b then some a else dupKey (b :: rest)
+  | _ => none
+
 /-- a reported round: ring dump (sorted hash, owner) and keys (index, hash, receiver text) -/
 structure Round where
   ring : List VNode
@@ -156,7 +161,13 @@ def ownerOf (rd : Round) (h : Nat) : Option Nat := (Ring.set rd.ring).lookup h
 
 def judgeRounds (o : String) (rm : Option Nat) : String :=
   match (o.splitOn " | ").mapM parseRound with
-  | some [r1] => match roundOK r1 with | some e => "bad " ++ e | none => "ok"
+  | some [r1] =>
+    match roundOK r1 with
+    | some e => "bad " ++ e
+    | none =>
+      match dupKey (r1.ring.map (·.1)) with
+      | some h => s!"bad ring point {h} belongs to more than one virtual node (vnode keys collide): removing a routee can move keys it did not own"
+      | none => "ok"
   | some [r1, r2] =>
     match roundOK r1, roundOK r2 with
     | some e, _ => "bad " ++ e
@@ -165,12 +176,17 @@ def judgeRounds (o : String) (rm : Option Nat) : String :=
       match rm with
       | none => "bad two rounds without a removal"
       | some rm =>
-        if r2.ring != r1.ring.filter (fun v => v.2 != rm) then "bad ring after removal is not the old ring minus the removed routee's vnodes"
-        else if !allDistinct (r1.ring.map (·.1)) then "ok"   -- hypothesis of the theorem not met (hash collision)
-        else
-          match r1.keys.find? (fun (_, h, _) => ownerOf r1 h != ownerOf r2 h && ownerOf r1 h != some rm) with
-          | some (j, _, _) => s!"bad key {j} moved although the removed routee did not own it"
-          | none => "ok"
+        -- a key whose owner changed must have been owned by the removed routee
+        match r1.keys.find? (fun (_, h, _) => ownerOf r1 h != ownerOf r2 h && ownerOf r1 h != some rm) with
+        | some (j, h, _) =>
+          s!"bad key {j} (hash {h}) moved from routee {match ownerOf r1 h with | some i => toString i | none => "-"} to {match ownerOf r2 h with | some i => toString i | none => "-"} although the removed routee {rm} did not own it"
+        | none =>
+          -- the hypothesis of the minimal-disruption theorem, CHECKED on the real hashes
+          match dupKey (r1.ring.map (·.1)) with
+          | some h => s!"bad ring point {h} belongs to more than one virtual node (vnode keys collide): removing a routee can move keys it did not own"
+          | none =>
+            if r2.ring != r1.ring.filter (fun v => v.2 != rm) then "bad ring after removal is not the old ring minus the removed routee's vnodes"
+            else "ok"
   | _ => "bad unparsable: " ++ (o.take 200).toString
 
 def parseTok (t : String) : List (String × String) :=
@@ -183,6 +199,7 @@ def judge (line : String) : String :=
   if o.startsWith "CRASH" || o.startsWith "panic" then "bad harness: " ++ o else
   match words c with
   | "ring" :: rest =>
+    if o.startsWith "bad-case" then "ok" else   -- the table hasher was asked for an unknown string: the tie is broken (compare), no property verdict
     match parseRing rest with
     | none => "bad-case"
     | some rc =>
